@@ -12,6 +12,8 @@ import (
 	"fmt"
 	"strings"
 
+	"github.com/Shopify/sarama"
+
 	"verif/harness/cmd/c03/cpgen"
 	"verif/harness/hlib"
 )
@@ -56,15 +58,32 @@ func shape(lg *cpgen.Log) {
 // e2eCase: end-to-end scenario number i of a seed (replayable as the line "e2e <seed> <i>")
 func e2eCase(seed uint64, i int) {
 	r := hlib.NewRand(seed*1000003 + uint64(i) + 29)
-	lg := cpgen.GenLog(r, cpgen.LogOpts{Format: r.Pick(2, 2, 3), Txn: true, MaxUnits: r.Pick(5, 10, 20)})
+	lg := cpgen.GenLog(r, cpgen.LogOpts{Format: r.Pick(2, 2, 3), Txn: true, MaxUnits: r.Pick(5, 10, 20), LeaveOpen: r.Bool()})
 	shape(lg)
 	so := lg.StartOffsets()
 	o := cpgen.E2EOpts{Rc: !r.Chance(1, 4), Kv: cpgen.PickVersion(r, 2), Start: so[r.Intn(len(so))],
 		FetchDef: int32(r.Pick(100, 256, 1024, 1<<20)), Faults: r.Bool(), Slow: r.Chance(1, 3), ChanBuf: r.Pick(0, 1, 4, 256),
 		MaxUnits: r.Pick(1, 2, 3, 8), Loose: r.Chance(1, 3)}
+	// the first scenarios walk through every Kafka version from 0.11 on (every FetchRequest version the consumer can
+	// send with transactions: 4, 7, 10, 11) x both isolation levels
+	var txnVersions []sarama.KafkaVersion
+	for _, kv := range cpgen.KafkaVersions {
+		if kv.IsAtLeast(sarama.V0_11_0_0) {
+			txnVersions = append(txnVersions, kv)
+		}
+	}
+	if i < 2*len(txnVersions) {
+		o.Kv = txnVersions[i/2]
+		o.Rc = i%2 == 0
+		o.Start = so[r.Intn(len(so)/2+1)]
+	}
 	id := fmt.Sprintf("e2e %d %d", seed, i)
 	run.Case(id)
 	run.Count("e2e-scenario")
+	run.Count(fmt.Sprintf("e2e-fetch-v%d-rc=%v", sarama.VerifFetchVersion(o.Kv), o.Rc))
+	if lg.LSO < lg.End {
+		run.Count("e2e-log-with-open-txn")
+	}
 	cpgen.RunE2E(run, id, seed*7919+uint64(i), lg, o)
 }
 
@@ -118,7 +137,7 @@ func main() {
 			history(r, lg, !r.Chance(1, 4), so[r.Intn(len(so))], r.Pick(1, 2, 3, 5, 100), false)
 		}
 	}
-	ne := 30
+	ne := 48
 	if run.Tier == "thorough" {
 		ne = 400
 	}
